@@ -15,6 +15,7 @@ Static clauses:
   HANDCODE (conversions)  a `#[serde(from / into / try_from = ..)]` conversion on the wire path must re-wrap the representation:
            one that calls workspace constructors, merges, filters, reorders or computes on one side of the codec only is a
            finding (dropping zero amounts, excluded by C15's normal form, is accepted)
+  WIRE (skips)  a field the generated writer may skip (skip_serializing_if) is defaulted by the generated reader of the same type
 Not decided: panics / aborts inside ciborium or serde on hostile bytes (dependency code); the stack actually needed per level
 of nesting (runtime quantity; DEPTH decides that the configured bound is a small constant).
 """
@@ -144,6 +145,46 @@ def wire(F, res):
 
 
 _KEEP = []
+
+
+def wire_skip(F, res):
+    """WIRE (skips): a field the generated *writer* may leave out (`#[serde(skip_serializing_if = ..)]`: a `skip_field("name")`
+    call in the generated serialize) is a field the generated *reader* can do without (`#[serde(default)]`: no
+    `missing_field("name")` in the generated deserialize of the same type).  Otherwise the encoder produces bytes - an
+    ad-hoc directive with an empty `data` map, say - that from_bytes rejects with "missing field"."""
+    skip, miss = {}, {}
+    n = 0
+    for p, f in F.fns.items():
+        if f["crate"] != "tx3_tir" or not is_derive(f):
+            continue
+        m = re.search(r"(Serialize|Deserialize<'de>) for ([^>]+(?:<[^>]*>)?)>", p)
+        if not m:
+            continue
+        du = None
+        for bi, t in mir.calls(f):
+            c = t.get("callee") or ""
+            if not (c.endswith("::skip_field") or c.endswith("missing_field")):
+                continue
+            n += 1
+            du = du or mir.DefUse(f)
+            names = {mir.promoted_str(F, o.const) for a in t["args"] for o in mir.provenance(f, du, a) if o.kind == "const"}
+            names.discard(None)
+            (skip if c.endswith("skip_field") else miss).setdefault(m.group(2), set()).update(names)
+    res.count("required-field checks in generated readers", n)
+    bad = []
+    for ty, names in sorted(skip.items()):
+        both = sorted(names & miss.get(ty, set()))
+        if both:
+            bad.append((ty, both))
+    key = "tx3_tir wire types|a field the writer may skip is optional for the reader"
+    if bad:
+        ty, both = bad[0]
+        a = F.adts.get(ty)
+        w = "%s:%s" % (a["file"].replace("/repo/", ""), a["line"]) if a else "crates/tx3-tir/src/model/v1beta0.rs"
+        res.add([finding("WIRE", key, w, "%s: the generated writer can leave out `%s` (skip_serializing_if) but the generated reader requires it (no `default`): a value for which the skip condition holds encodes to bytes that from_bytes rejects with a missing-field error" % (
+            "; ".join("%s.%s" % (t_.split("::")[-1], "/".join(b_)) for t_, b_ in bad[:3]), bad[0][1][0]))])
+    else:
+        res.add([ok("WIRE", key, "crates/tx3-tir/src/model", "%d type(s) with skippable fields, each of them defaulted by the reader" % len(skip) if skip else "the generated writers skip no field")])
 
 
 def ident(F, res):
@@ -490,6 +531,7 @@ def run(ctx):
     res.rule("DEPTH", "the decoders' bounded recursion is not overridden by a computed or disabled limit")
     res.rule("HANDCODE", "no hand-written function inside the closure of the derived Serialize/Deserialize impls")
     wire(F, res)
+    wire_skip(F, res)
     handcode(F, res)
     ident(F, res)
     gate(F, res)
